@@ -672,7 +672,7 @@ def _gen_array_spec(kind, rng, cfg):
     else:
         form = rng.choice(values.MAT_FORMS)
     return {'gen': kind, 'k': rng.randrange(8) if rng.random() > cfg.get('special_rate', 0.0)
-            else 8 + rng.randrange(4), 'form': form}
+            else 8 + rng.randrange(6), 'form': form}
 
 
 def make_spec(kind, world, cfg, rng, recv_cls):
